@@ -27,11 +27,13 @@ pub enum DOp {
     Send,
     Mint,
     Delegate,
+    /// a second delegator on the same validator
+    Delegate2,
     Block,
     Sudo,
 }
 
-const ALL: [DOp; 14] = [DOp::Inst, DOp::Inst2, DOp::ExecCaught, DOp::Store, DOp::Dup1, DOp::ExecOk, DOp::Send, DOp::Block, DOp::ExecFail, DOp::Mint, DOp::Delegate, DOp::InstFail, DOp::StoreId7, DOp::Sudo];
+const ALL: [DOp; 15] = [DOp::Inst, DOp::Inst2, DOp::ExecCaught, DOp::Store, DOp::Dup1, DOp::Delegate, DOp::Delegate2, DOp::ExecOk, DOp::Send, DOp::Block, DOp::ExecFail, DOp::Mint, DOp::InstFail, DOp::StoreId7, DOp::Sudo];
 
 struct Inst {
     app: DApp,
@@ -48,6 +50,7 @@ fn fresh() -> Inst {
     let block = mock_env().block;
     let app: DApp = AppBuilder::new().with_storage(SnapStorage::new()).build(|router, api, storage| {
         router.bank.init_balance(storage, &ua, vec![coin(50, "x"), coin(50, "TOKEN")]).unwrap();
+        router.bank.init_balance(storage, &Addr::unchecked(&v), vec![coin(50, "TOKEN")]).unwrap();
         router.staking.setup(storage, StakingInfo { bonded_denom: "TOKEN".into(), unbonding_time: 60, apr: Decimal::percent(10) }).unwrap();
         router.staking.add_validator(api, storage, &block, Validator::create("val".into(), Decimal::percent(10), Decimal::percent(90), Decimal::percent(1))).unwrap();
     });
@@ -117,6 +120,7 @@ fn apply(i: &mut Inst, op: DOp) -> String {
         DOp::Send => resp(i.app.execute(u.clone(), BankMsg::Send { to_address: i.v.clone(), amount: vec![coin(3, "x")] }.into())),
         DOp::Mint => resp(i.app.sudo(SudoMsg::Bank(BankSudo::Mint { to_address: i.v.clone(), amount: vec![coin(5, "y")] }))),
         DOp::Delegate => resp(i.app.execute(u.clone(), StakingMsg::Delegate { validator: "val".into(), amount: coin(4, "TOKEN") }.into())),
+        DOp::Delegate2 => resp(i.app.execute(Addr::unchecked(&i.v), StakingMsg::Delegate { validator: "val".into(), amount: coin(3, "TOKEN") }.into())),
         DOp::Block => {
             i.app.update_block(next_block);
             format!("block={:?}", i.app.block_info())
@@ -197,7 +201,7 @@ pub struct DetOut {
 
 pub fn explore(ctx: &Ctx, report: bool) -> DetOut {
     set_watch(Watch::default());
-    let (n_a, len_a, n_b, len_b) = ctx.tier.pick((10, 4, 5, 3), (14, 5, 8, 3));
+    let (n_a, len_a, n_b, len_b) = ctx.tier.pick((11, 4, 5, 3), (15, 5, 8, 3));
     // (a) every history twice on independently built apps
     let hs = histories(&ALL[..n_a], len_a);
     let ops = AtomicU64::new(0);
